@@ -88,7 +88,9 @@ func processMongoLogStream(r io.Reader, outWriter io.Writer, bar *progressbar.Pr
 			addOneToBar(bar)
 			continue
 		}
-		fmt.Fprintln(outWriter, string(out))
+		if _, err := fmt.Fprintln(outWriter, string(out)); err != nil {
+			return fmt.Errorf("failed to write redacted output: %w", err)
+		}
 		// addOneToBar already handles the nil check for 'bar', so no need for an 'if' here.
 		addOneToBar(bar)
 	}
